@@ -13,7 +13,7 @@ import iolib, gens
 from iolib import RunDir, run_cli, sig, shim_env, read_trace, le32
 from vlib import Oracle, hx, md5
 
-THEOREMS = ["C14_exit0_sound", "C14_rm_order", "C14_rm_order_compress", "C14_multi_exit0"]
+THEOREMS = ["C14_exit0_sound", "C14_rm_order", "C14_rm_order_compress", "C14_multi_exit0", "C14_truncation", "C14_truncation_exit"]
 CORRESPONDENCE = ["Io.decompress (ST model) == lz4 -d/-t of the ST build under the same input, seekable flag and I/O fault: exit status class, output on exit 0, source removal",
                   "Io.decompress (MT model) == lz4 -d/-t of the MT build (same observables)",
                   "Io.compress tail model == lz4 compression (frame ST/MT, legacy) under the same I/O fault: exit status class, source removal"]
